@@ -197,7 +197,12 @@ def hmac_keyblock_events(ck_ob, f, label, mask, keyarg, lenarg, tagname, statear
           "64-byte block absorbed = (key ^ 0x%02X) for %d key byte(s), 0x%02X for the other %d" % (mask, n, mask, BLOCK - n),
           "block absorbed for key-length class %s differs from (key ^ 0x%02X) || 0x%02X-padding: %s" % (cname, mask, mask, first_byte_diff(u_[4], want)), relpath(f.insts[u_[5]].where))
         c(cl_[3][0] == u_[3][1] and cl_[3][1] == "64", "%s-wiped(%s)" % (tagname, cname), "the key block is wiped (64 bytes)", "key block not wiped: clean(%s, %s)" % cl_[3][:2])
-        out[cname] = (p, rest[3:])
+        # further wipes of local temporaries of the helper (a digest buffer, ...) belong to the key block set-up: they hash nothing and,
+        # being modelled as zeroing, any later use of the wiped bytes shows up in the data of the later events
+        tail = list(rest[3:])
+        while tail and tail[0][2] == "tinyjambu_clean" and tail[0][3][0].startswith("alloca") and tail[0][3][0] != u_[3][1]:
+            tail.pop(0)
+        out[cname] = (p, tail)
     return out
 
 
